@@ -6,6 +6,7 @@ import (
 	"errors"
 	"fmt"
 	"net"
+	"net/http"
 	"strings"
 
 	"github.com/tigerwill90/fox"
@@ -376,6 +377,14 @@ func runHandlers(c *mc.Ctx, r *mc.Result) {
 		return
 	}
 	kinds := []string{"route(inherits)", "route(own)", "route(nil)", "404", "405", "options", "redirect"}
+	// the three route kinds again, dispatched by hand: a manual Lookup (on the router, on a read-only and on a
+	// write transaction) followed by Route.Handle on the returned context
+	vias := []string{"Router.Lookup", "Txn(ro).Lookup", "Txn(rw).Lookup"}
+	for _, k := range kinds[:3] {
+		for _, v := range vias {
+			kinds = append(kinds, k+" via "+v)
+		}
+	}
 	r.Bounds["handlers"] = fmt.Sprintf("router-wide resolver {none, set} x all ordered pairs and triples of %d request kinds on one router (deterministic context pool); Context.ClientIP read in every handler", len(kinds))
 	for _, global := range []bool{false, true} {
 		var seen string
@@ -442,11 +451,40 @@ func runHandlers(c *mc.Ctx, r *mc.Result) {
 				}
 			}
 		}
+		for _, k := range kinds[:3] {
+			for _, v := range vias {
+				reqs[k+" via "+v] = reqs[k]
+				want[k+" via "+v] = want[k]
+			}
+		}
+		type lookuper interface {
+			Lookup(w fox.ResponseWriter, r *http.Request) (*fox.Route, fox.ContextCloser, bool)
+		}
+		dispatch := func(l lookuper, rq *http.Request) {
+			if rt, cc, _ := l.Lookup(fx.WrapRW(fx.NewRW()), rq); rt != nil {
+				rt.Handle(cc)
+				cc.Close()
+			}
+		}
 		for _, s := range seqs {
 			f := build()
 			for _, k := range s {
 				seen = "handler did not run"
-				f.ServeHTTP(fx.NewRW(), fx.Req(reqs[k][0], "", reqs[k][1]))
+				rq := fx.Req(reqs[k][0], "", reqs[k][1])
+				switch {
+				case strings.HasSuffix(k, "via Router.Lookup"):
+					dispatch(f, rq)
+				case strings.HasSuffix(k, "via Txn(ro).Lookup"):
+					txn := f.Txn(false)
+					dispatch(txn, rq)
+					txn.Abort()
+				case strings.HasSuffix(k, "via Txn(rw).Lookup"):
+					txn := f.Txn(true)
+					dispatch(txn, rq)
+					txn.Abort()
+				default:
+					f.ServeHTTP(fx.NewRW(), rq)
+				}
 				r.Evaluations++
 				r.DistinctNontrivial++
 				if seen != want[k] {
